@@ -55,6 +55,9 @@ CHECKS = {
  'C18': dict(tech='TLA+ model of contribution chains (MpcSetup.tla) enumerated by TLC; every transcript replayed on the real mpcsetup package through serialization, verdicts and extracted keys compared',
              text='TLC enumerates, for both phases, circuits with 0, 1 or 2 commitments (and a phase-1 domain larger than needed) and 1-3 contributions, the transcripts a verifier may be handed: honest, one serialized element altered (every component x first/mid/last x double/negation/infinity, challenge bit flip), contributions swapped, dropped, duplicated, spliced from a second honest chain, a dishonest contributor binding its update proofs to a challenge of its own choosing, phase 2 checked against another phase-1 output or another circuit; the verdict is "every contribution unaltered and extending its predecessor". Each transcript goes through WriteTo / byte edit / ReadFrom / VerifyPhase1|2 of the real package on the curves; accepted phase-2 transcripts must give keys that prove, verify and reject other public inputs.',
              note='Knowledge soundness of the update proofs is an ideal rule; replacements are other valid group elements, not arbitrary bytes; small domains only.', ref='6 C18 / 11.2'),
+ 'C19': dict(tech='TLA+ generator and reference evaluation of GKR circuit topologies (GkrTopo.tla) run by TLC; topologies replayed through std/gkr on the real fields with the solving and proving hints perturbed',
+             text='Every one-gate topology and simulated 2-4 gate topologies (add, sub, mul, neg, identity; fan-out; 1, 2, 4, 8 instances; series dependencies between instances) are evaluated directly over F_47 by TLC and replayed through std/gkr: exported values equal the direct evaluation in the test engine and in the compiled circuit proven with Groth16, a wrong exported value is rejected, and each output of the GKR solving hint and proving hint perturbed by one makes the proof fail.',
+             note='Natively registered gates only (custom gates need an internal package); Fiat-Shamir hash MiMC; soundness of sum-check beyond single-output perturbations is a cryptographic assumption.', ref='6 C19 / 11.2'),
  'C20': dict(tech='TLA+ entropy-as-resource model of prover randomness (Blinding.tla) checked by TLC; every history replayed on the real provers with deterministic parts recomputed from the solved wires and keys',
              text='TLC checks on all histories of 2-3 proofs that every blinded element depends on a fresh symbol; each history (backend x circuits with 0-3 commitments x statistical ZK) is replayed on the real provers of the curves: Groth16 Ar/Bs and PLONK L/R/O are compared with the deterministic commitments recomputed from the captured wire values and the proving key, and all blinded elements (Ar, Bs, Krs, Pedersen commitments; L, R, O, Z, H shards, BSB22 commitments) pairwise across proofs of one witness.',
              note='Presence, freshness and non-degeneracy of blinding are decided, not statistical zero-knowledge; Z and the quotient shards are only compared across proofs.', ref='6 C20'),
